@@ -253,6 +253,22 @@ def table():
                 "| change | property | what it does | checks | first signature reported |\n|---|---|---|---|---|\n")
         f.write("\n".join(rows) + "\n")
     print("wrote seeded/README.md with %d rows" % len(rows))
+    brows = []
+    for mp in sorted(glob.glob(os.path.join(BENIGN, "*", "meta.json"))):
+        m = json.load(open(mp))
+        last = {}
+        for x in m.get("runs", []):
+            last[x["check"]] = x
+        cell = "; ".join("%s: %s" % (c.replace("./check ", ""), "silent" if x["silent"] else ("ALARM" if x["exit"] == 1 else "machinery failure")) for c, x in sorted(last.items()))
+        brows.append("| %s | %s | %s | %s | %s |" % (m["name"], m.get("summary", "").replace("|", "/"), m.get("test_suite_with_patch", ""), cell, m.get("verdict", "").replace("|", "/")))
+    if brows:
+        with open(os.path.join(BENIGN, "README.md"), "w") as f:
+            f.write("# Behaviour-preserving changes\n\nChanges written by sub-agents that saw only the property text and were asked for realistic, non-trivial refactorings, "
+                    "optimisations and representation changes that keep the property true. The registered checks were run against a worktree with each change applied "
+                    "(tools/seedeval.py benign); they are expected to stay silent. Generated by tools/seedeval.py table.\n\n"
+                    "| change | what it does | repository suite | checks | verdict where a check spoke |\n|---|---|---|---|---|\n")
+            f.write("\n".join(brows) + "\n")
+        print("wrote benign/README.md with %d rows" % len(brows))
 
 
 def main():
